@@ -61,11 +61,12 @@ def cc_upper_snake(s):
 
 
 def serde_snake(variant):
+    """serde's RenameRule::SnakeCase: `_` before every (Unicode) upper-case char, ASCII-only lowering"""
     out = ""
     for i, ch in enumerate(variant):
         if ch.isupper() and i > 0:
             out += "_"
-        out += ch.lower()
+        out += ch.lower() if ch.isascii() else ch
     return out
 
 
@@ -85,7 +86,7 @@ def wire_of(fn):
 def is_regular(fn):
     import re
 
-    return re.fullmatch(r"[a-z]+[0-9]*(_[a-z]+[0-9]*)*", fn) is not None
+    return re.fullmatch(r"[a-z]+[0-9]*(_[a-z]+[0-9]*)*", fn, flags=re.ASCII) is not None
 
 
 # --------------------------------------------------------------------------------------
@@ -334,6 +335,8 @@ def ret_expr(h, hid):
         return "hash64(&%s) %% 2 == 0" % key
     if h.ret == "Vec<u32>":
         return "vec![(hash64(&%s) %% 1000) as u32, %d]" % (key, len(h.args))
+    if h.ret == "Binary":
+        return "Binary::from(%s.into_bytes())" % key
     if h.ret in ("T", "Self::T"):
         return "item.clone()"
     raise Exception("ret type " + h.ret)
@@ -1395,6 +1398,22 @@ def family_f3(rng):
         import copy
 
         cs.append(mk("data_%s" % "abc"[variant], copy.deepcopy(methods), err="own" if variant != 1 else "std", tags=("data",)))
+    PAY_NAMES = dict(payload=[Arg("gas_limit", "u64"), Arg("id", "String"), Arg("script", "Script")])
+    PAY_BIN = dict(payload=[Arg("blob", "Binary")])
+    cs.append(
+        mk(
+            "names_a",
+            [
+                Handler("reply", "n_ok", reply=Reply(["named"], "success", data="RawOpt", **PAY_NAMES)),
+                Handler("reply", "n_err", reply=Reply(["named"], "error", **PAY_NAMES)),
+                Handler("reply", "bin_ok", reply=Reply(["binp"], "success", **PAY_BIN)),
+                Handler("reply", "bin_any", reply=Reply(["bina"], "always", **PAY_BIN)),
+                Handler("reply", "optd", reply=Reply([], "success", data="Typed", data_ty="Option<u64>", **PAY_NAMES)),
+                Handler("reply", "optd_b", reply=Reply([], "success", data="Opt", data_ty="Option<u64>", **PAY_BIN)),
+            ],
+            tags=("data",),
+        )
+    )
     return [], cs
 
 
@@ -1405,6 +1424,7 @@ def iface_lib_f1():
             Handler("exec", "alpha_exec", [Arg("x", "u64")]),
             Handler("exec", "ping_alpha"),
             Handler("query", "alpha_query", [Arg("who", "String")], ret="QResp"),
+            Handler("query", "alpha_bin", [Arg("k", "String")], ret="Binary"),
             Handler("sudo", "alpha_sudo", [Arg("n", "u32")]),
         ],
     )
@@ -1448,6 +1468,7 @@ def iface_lib_f1():
         "zeta",
         [
             Handler("exec", "poke"),
+            Handler("exec", "set_up"),
             Handler("sudo", "pong"),
             Handler("query", "pang", [Arg("script", "Script")], ret="String"),
         ],
@@ -1459,6 +1480,8 @@ def iface_lib_f1():
             Handler("exec", "dbl__us", [Arg("_x", "u32")]),
             Handler("query", "tail_", ret="u64"),
             Handler("sudo", "__both__"),
+            Handler("exec", "\u00e9tat"),
+            Handler("query", "set_\u00e9lan", ret="bool"),
         ],
     )
     return dict(alpha=alpha, beta=beta, gamma=gamma, delta=delta, eps=eps, zeta=zeta, weird=weird)
@@ -1488,6 +1511,7 @@ def family_f1(rng):
                 Handler("exec", "swap_nums", [Arg("lo", "u32"), Arg("hi", "u32")]),
                 Handler("exec", "z_up", [Arg("n", "u8")]),
                 Handler("query", "q_of_x", [Arg("x", "String")], ret="String"),
+                Handler("query", "raw_bytes", [Arg("x", "u32")], ret="Binary", failarg=True),
                 Handler("query", "balance_of", [Arg("who", "Addr")], ret="u64", failarg=True),
                 Handler("query", "probe", [Arg("x", "u32")], ret="u64", failarg=True),
                 Handler("sudo", "nudge", [Arg("n", "u64")]),
@@ -1525,6 +1549,7 @@ def family_f1(rng):
                 Handler("migrate", "migrate"),
             ],
             generic="Kd",
+            uses=[Use(lib["alpha"])],
             err="own",
             tags=T + ("regular",),
         )
@@ -1533,7 +1558,7 @@ def family_f1(rng):
         Contract(
             "pg",
             "f1",
-            std_handlers(rng, extra=[Handler("query", "poke", [Arg("script", "Script")], ret="String"), Handler("sudo", "pang"), Handler("exec", "pong")]),
+            std_handlers(rng, extra=[Handler("query", "poke", [Arg("script", "Script")], ret="String"), Handler("sudo", "pang"), Handler("exec", "pong"), Handler("exec", "setup"), Handler("query", "set_up", [Arg("script", "Script")], ret="String")]),
             uses=[Use(lib["zeta"])],
             err="own",
             tags=T + ("regular", "shared_names"),
@@ -1569,6 +1594,25 @@ def family_f1(rng):
             uses=[Use(wide)],
             err="own",
             tags=T + ("regular",),
+        )
+    )
+    # handler names that do not survive a snake(UpperCamel(..)) round trip, next to handlers of
+    # another kind that carry the re-cased name
+    recased = Iface("recased", [Handler("exec", "init_2", [Arg("a", "u32")]), Handler("sudo", "migrate_v_2")])
+    lib["recased"] = recased
+    cs.append(
+        Contract(
+            "pm",
+            "f1",
+            [
+                Handler("instantiate", "init2", [Arg("a", "u32")]),
+                Handler("migrate", "migrate_v2"),
+                Handler("exec", "go"),
+                Handler("query", "probe", [Arg("x", "u32")], ret="u64", failarg=True),
+            ],
+            uses=[Use(recased)],
+            err="own",
+            tags=("dispatch", "irregular"),
         )
     )
     # seeded random programs: random handler sets over the closed type set
@@ -1629,6 +1673,10 @@ def emit_absence_probe(c):
 
 def family_f2(rng):
     """entry point overrides: subsets of overridden kinds x migrate / reply presence x replies feature"""
+    side = Iface(
+        "side",
+        [Handler("exec", "side_exec", [Arg("n", "u32")]), Handler("query", "side_query", [Arg("who", "String")], ret="String"), Handler("sudo", "side_sudo")],
+    )
     cs = []
     subsets = [[]]
     for k in KINDS:
@@ -1665,6 +1713,7 @@ def family_f2(rng):
                 name,
                 "f2",
                 hs,
+                uses=[Use(side)] if n % 4 == 3 else [],
                 err=["own", "std"][n % 2],
                 overrides=sub,
                 replies=(reply_mode == "feature"),
@@ -1684,8 +1733,8 @@ def family_f2(rng):
         ]
         if n % 2 == 0:
             hs.append(Handler("reply", "on_done", reply=Reply([], "always", payload_raw=True, payload=[Arg("payload", "Binary")])))
-        cs.append(Contract("og" + "abcd"[n], "f2", hs, generic=["Pt", "Kd", "String", "u64"][n], err=["own", "std"][n % 2], overrides=sub, replies=(n % 2 == 0), tags=("override", "regular")))
-    return [], cs
+        cs.append(Contract("og" + "abcd"[n], "f2", hs, uses=[Use(side)], generic=["Pt", "Kd", "String", "u64"][n], err=["own", "std"][n % 2], overrides=sub, replies=(n % 2 == 0), tags=("override", "regular")))
+    return [side], cs
 
 
 def family_f5(rng):
